@@ -11,7 +11,9 @@ RULE = ("scripts of read outcomes over an alphabet of 38 REAL Go error values (b
         "representative per letter), the same x every cancellation position, random scripts up to length 40 (scripted, "
         "asynchronous or no cancellation; drained or not), error bursts beyond the channel buffer, runs of cap-1 / cap / "
         "cap+1 / 2.5 cap unknown read errors with no frame between them (transients interleaved, consumer receiving) "
-        "followed by frames; the REAL afpacket.Source on lo of a private netns closed before / while receiving with the "
+        "followed by frames; successful reads of frames of length 0 (nil and empty slice), 1, 2, 3, 4, 5, 6, 13, 14, 59, 60, "
+        "1514 bytes, processing ok or failing, alone, after a transient / an unknown fault and in random scripts between "
+        "faults (scripted, asynchronous or no cancellation) -- a frame of any length is a successfully read frame; the REAL afpacket.Source on lo of a private netns closed before / while receiving with the "
         "context live, idle, under traffic, on a veth whose link is set down while receiving (judged by the class of the "
         "value gopacket's own handle returns), and the value it returns once closed played through the mock; non-trivial = at "
         "least one fault or processor error in the script; distinct by (script, cancellation, consumer)")
@@ -115,6 +117,23 @@ def step_text(alpha, c):
     return edesc_text(alpha["alpha"][c - 128]["d"])
 
 
+def frame_len(o, i):
+    lens = o.get("lens") or []
+    return lens[i] if i < len(lens) else -1
+
+
+def steps_text(alpha, o, codes=None):
+    """The script of a case in words, with the scripted frame lengths."""
+    out = []
+    for i, c in enumerate(o["script"] if codes is None else codes):
+        t = step_text(alpha, c)
+        n = frame_len(o, i)
+        if c < 128 and n >= 0:
+            t = t.replace("frame", "frame[%d bytes%s]" % (n, (", nil slice" if i % 2 == 0 else ", empty slice") if n == 0 else ""), 1)
+        out.append(t)
+    return out
+
+
 def spec_on_impl(o, alpha):
     """C20 judged on what the real receiver did. Returns None or (key, reason)."""
     A = alpha["alpha"]
@@ -140,9 +159,12 @@ def spec_on_impl(o, alpha):
             why = "frames are processed out of order"
         else:
             why = "a successfully read frame is not processed"
-        return ("frames", "%s: read frames at positions %s, processed %s" % (why, exp_frames, got))
+        lost = [i for i in exp_frames if i not in got]
+        sized = ["the frame read at position %d has length %d" % (i, frame_len(o, i)) for i in lost if frame_len(o, i) >= 0]
+        return ("frames", "%s: read frames at positions %s, processed %s%s" % (
+            why, exp_frames, got, (" (" + "; ".join(sized[:4]) + "; the read returned it with a nil error)") if sized else ""))
     if o.get("bad_ci"):
-        return ("frames", "a frame is processed with another frame's capture info")
+        return ("frames", "a frame is processed with another frame's capture info or with other bytes than were read")
     errs = o["errs"]
     prev = -1
     for code in errs:
@@ -245,7 +267,7 @@ def source_spec(o):
 
 
 def describe(alpha, o):
-    return {"script": [step_text(alpha, c) for c in o["script"]], "script_codes": o["script"], "drained": o["drained"],
+    return {"script": steps_text(alpha, o), "script_codes": o["script"], "frame_lengths": o.get("lens"), "drained": o["drained"],
             "cancel_requested": o["cancel_req"], "async_us": o["async_us"]}
 
 
@@ -255,7 +277,7 @@ def report(ctx, alpha, o, key, why):
         "property": "C20", "what": why,
         "input": {"class": o["class"], "script": o["script"], "drained": o["drained"], "cancel_req": o["cancel_req"],
                   "async_us": o["async_us"], "closed_src_at": o.get("closed_src_at", 0),
-                  "never_drain": o.get("never_drain", False)},
+                  "never_drain": o.get("never_drain", False), **({"lens": o["lens"]} if o.get("lens") else {})},
         "readable": describe(alpha, o),
         "observed": {k: o[k] for k in ("played", "cancel", "frames", "errs", "reads", "closed", "stuck")},
         "replay_cmd": "bin/check C20 --replay <this file>"})
@@ -272,6 +294,8 @@ def minimise(ctx, alpha, o, key, deadline):
         i, progressed = 0, False
         while i < len(cur["script"]) and time.time() < deadline:
             scr = cur["script"][:i] + cur["script"][i + chunk:]
+            lens = cur.get("lens")
+            lens = lens[:i] + lens[i + chunk:] if lens else None
             if not scr:
                 i += chunk
                 continue
@@ -286,6 +310,8 @@ def minimise(ctx, alpha, o, key, deadline):
                 break                 # already minimal: frame, the closed source's error, frame
             cand = {"class": cur["class"], "script": scr, "drained": cur["drained"], "cancel_req": creq,
                     "async_us": cur["async_us"]}
+            if lens:
+                cand["lens"] = lens
             got = run_one(ctx, cand)
             r = spec_on_impl(got, alpha) if got else None
             if r and r[0] == key:
@@ -346,7 +372,7 @@ def judge(ctx, alpha, rows, limit=3):
             continue
         if r[0] == "hang":
             # a watchdog finding is re-run once before it is believed
-            again = run_one(ctx, {k: o[k] for k in ("class", "script", "drained", "cancel_req", "async_us")})
+            again = run_one(ctx, {k: o[k] for k in ("class", "script", "drained", "cancel_req", "async_us", "lens") if k in o})
             if again is not None and not spec_on_impl(again, alpha):
                 ctx.info.append("a run that hit the watchdog ended normally when repeated: attributed to the load of the machine")
                 continue
@@ -375,9 +401,9 @@ def run(ctx):
     if ctx.harness_build("c20"):
         args = ["-out", "cases.jsonl", "-seed", ctx.seed, "-corpus", os.path.join(verif.ROOT, "corpus", "C20")]
         if quick:
-            args += ["-n", 1500, "-exh", 3, "-exhc", 2, "-pairs", 600, "-bursts", 16, "-runs", 2, "-source"]
+            args += ["-n", 1500, "-exh", 3, "-exhc", 2, "-pairs", 600, "-bursts", 16, "-runs", 2, "-lens", 300, "-source"]
         else:
-            args += ["-n", 20000, "-exh", 5, "-exhc", 4, "-pairs", -1, "-bursts", 120, "-runs", 6, "-source"]
+            args += ["-n", 20000, "-exh", 5, "-exhc", 4, "-pairs", -1, "-bursts", 120, "-runs", 6, "-lens", 4000, "-source"]
         ok, _ = ctx.harness_run("c20", args, timeout=1500)
         if ok:
             allrows = ctx.read_jsonl(os.path.join(ctx.work, "cases.jsonl"))
@@ -400,7 +426,7 @@ def run(ctx):
             for attempt in range(2):
                 time.sleep(1.5)
                 ok, _ = ctx.harness_run("c20", ["-out", "confirm.jsonl", "-n", 0, "-exh", 0, "-exhc", 0, "-pairs", 0,
-                                                "-bursts", 0, "-runs", 0, "-source", "-srcwait", 6000], timeout=300)
+                                                "-bursts", 0, "-runs", 0, "-lens", 0, "-source", "-srcwait", 6000], timeout=300)
                 if not ok:
                     ctx.broken.pop()
                     continue
@@ -424,8 +450,10 @@ def run(ctx):
             ctx.findings.append({"key": r[0], "what": r[1], "replay": path})
     for o in rows:
         key = (tuple(o["played"]), o["cancel"], o["drained"])
+        if o.get("lens"):
+            key += (tuple(o["lens"]),)
         ctx.count(o["class"], key, nontrivial=any(c >= 64 for c in o["script"]),
-                  sample={"script": [step_text(alpha, c) for c in o["script"][:12]], "drained": o["drained"],
+                  sample={"script": steps_text(alpha, o)[:12], "drained": o["drained"],
                           "cancelled_during_read": o["cancel"], "frames": o["frames"][:12], "errs": o["errs"][:12],
                           "reads": o["reads"], "closed": o["closed"]})
     if rows:
@@ -449,13 +477,13 @@ def run(ctx):
             for idx, codes in parse_pairs(ctx, out, "M"):
                 o = part[idx]
                 ctx.broken.append(("correspondence: script %s cancel=%s drained=%s: %s" % (
-                    [step_text(alpha, c) for c in o["played"][:10]], o["cancel"], o["drained"],
+                    steps_text(alpha, o, o["played"])[:10], o["cancel"], o["drained"],
                     "; ".join(CODES[c] for c in codes)), json.dumps(o)[:700]))
             ctx.cov["traces_validated_against_impl"] += len(part)
     if ctx.broken and not ctx.findings and os.path.exists(os.path.join(verif.HBIN, "c20")):
         # a proof or the tie broke: look harder for a concrete failing input on the real code
         ok, _ = ctx.harness_run("c20", ["-out", "search.jsonl", "-seed", ctx.seed + 7, "-n", 8000, "-exh", 4, "-exhc", 3,
-                                        "-pairs", -1, "-bursts", 40], timeout=1500)
+                                        "-pairs", -1, "-bursts", 40, "-lens", 2000], timeout=1500)
         if ok:
             more = ctx.read_jsonl(os.path.join(ctx.work, "search.jsonl"))
             judge(ctx, more[0], [o for o in more[1:] if o["kind"] == "case"])
@@ -471,7 +499,7 @@ def replay(ctx, path):
         return 1
     if r["input"].get("source"):
         ok, _ = ctx.harness_run("c20", ["-out", "one.jsonl", "-n", 0, "-exh", 0, "-exhc", 0, "-pairs", 0, "-bursts", 0,
-                                        "-runs", 0, "-source"], timeout=300)
+                                        "-runs", 0, "-lens", 0, "-source"], timeout=300)
         if not ok:
             return 1
         bad = 0
@@ -495,7 +523,7 @@ def replay(ctx, path):
         alpha, o = rows[0], rows[1]
         why = spec_on_impl(o, alpha)
         print("replay %s cancel_req=%s drained=%s -> frames=%s errs=%s reads=%d closed=%s: %s" % (
-            [step_text(alpha, c) for c in o["script"]], o["cancel_req"], o["drained"], o["frames"], o["errs"], o["reads"],
+            steps_text(alpha, o), o["cancel_req"], o["drained"], o["frames"], o["errs"], o["reads"],
             o["closed"], why[1] if why else "property holds on this input"))
         bad += 1 if why else 0
     return 1 if bad else 0
